@@ -17,6 +17,34 @@ from sa.paths import PathEnumerator, Event
 
 # --------------------------------------------------------------------------- v2
 
+def _merge_rejects_duplicates(g):
+    """In _merge_summed_indices_same_term: for every part, a non-empty intersection with the indices merged so far raises BEFORE the part
+    is merged (spellings: a for over the intersection that raises, an if on it, `not merged.isdisjoint(part)`)."""
+    for lp in find_stmts(g.body, lambda s: isinstance(s, ast.For)):
+        if not isinstance(lp.target, ast.Name):
+            continue
+        part = lp.target.id
+        inits = [a for a in g.body if isinstance(a, (ast.Assign, ast.AnnAssign)) and src(a.value) in ('set()', 'set(())') and a.lineno < lp.lineno]
+        for a in inits:
+            m = src(a.targets[0] if isinstance(a, ast.Assign) else a.target)
+            inter = {f'{m} & {part}', f'{part} & {m}', f'{m}.intersection({part})', f'{part}.intersection({m})'}
+            inter |= {f'sorted({x})' for x in inter} | {f'list({x})' for x in inter} | {f'len({x})' for x in inter} | {f'bool({x})' for x in inter}
+            nonempty = inter | {f'not {m}.isdisjoint({part})', f'not {part}.isdisjoint({m})'} | {f'{x} > 0' for x in inter if x.startswith('len(')}
+            updates = {f'{m} |= {part}', f'{m}.update({part})', f'{m} = {m} | {part}', f'{m} = {m}.union({part})'}
+            guard = update = None
+            for i, b in enumerate(lp.body):
+                if guard is None and isinstance(b, ast.For) and src(b.iter) in inter and b.body and isinstance(b.body[0], ast.Raise):
+                    guard = i
+                elif guard is None and isinstance(b, ast.If) and src(b.test) in nonempty and b.body and isinstance(b.body[-1], ast.Raise) \
+                        and not any(isinstance(x, (ast.Assign, ast.AugAssign)) for x in b.body):
+                    guard = i
+                elif update is None and src(b) in updates:
+                    update = i
+            if guard is not None and update is not None and guard < update and not any(isinstance(x, (ast.Break, ast.Continue)) for x in ast.walk(lp)):
+                return True
+    return False
+
+
 def check_v2_errors(model, rep):
     p = model.cls('expression_v2:_Parser')
     m = p.module
@@ -219,7 +247,7 @@ def check_v2_guards(model, rep):
     ok = any(isinstance(s, ast.If) and src(s.test) == 'index in summed' and any(isinstance(b, ast.Raise) for b in s.body) for s in ast.walk(v.node))
     need(v, 'verify-summed', ok, 'a free index that is also summed raises', '_verify_indices_summed no longer raises for a free index that was summed')
     g = fn('_merge_summed_indices_same_term')
-    ok = any(isinstance(s, ast.For) and src(s.iter) == 'sorted(merged & part)' and any(isinstance(b, ast.Raise) for b in s.body) for s in ast.walk(g.node)) and 'merged |= part' in src(g.node)
+    ok = _merge_rejects_duplicates(g)
     need(g, 'merge-summed', ok, 'an index summed in two factors of one term raises', '_merge_summed_indices_same_term no longer rejects an index summed twice')
 
 
